@@ -57,7 +57,7 @@ def local_defs(fn: ast.AST) -> Dict[str, List[ast.AST]]:
     A binding that is not a plain `name = expr` (loop target, with-as, aug-assign, tuple target)
     is recorded as None (unknown value)."""
     d: Dict[str, List[Optional[ast.AST]]] = {}
-    for n in walk_no_nested(fn):
+    for n in sorted(walk_no_nested(fn), key=lambda x: (getattr(x, "lineno", 0), getattr(x, "col_offset", 0))):
         if isinstance(n, ast.Assign):
             for t in n.targets:
                 if isinstance(t, ast.Name):
